@@ -1794,7 +1794,8 @@ class Table(Vector):
 		# Pre-bind: this is fast because group_items holds (key, rows)
 		for idx, col in enumerate(over):
 			values = [key[idx] for key, _ in group_items]
-			result_cols.append(Vector(values, name=uniquify(col._name or "key")))
+			# (an unnamed key gets a name; '' is a name like any other)
+			result_cols.append(Vector(values, name=uniquify(col._name if col._name is not None else "key")))
 		
 		# ------------------------------------------------------------------
 		# 6. Column-major helper: aggregate one column for all groups
@@ -2045,8 +2046,9 @@ class Table(Vector):
 		# ----------------------------------------------------------------------
 		result_cols = []
 		for col in over:
+			# (the key column itself, unchanged: same elements, same dtype; '' is a name like any other)
 			result_cols.append(
-				Vector(list(col), name=uniquify(col._name or "key"))
+				Vector(list(col), dtype=col._dtype, name=uniquify(col._name if col._name is not None else "key"))
 			)
 		
 		# ----------------------------------------------------------------------
